@@ -1329,6 +1329,13 @@ pub fn text_faults(r: &mut Rng, p: &Pieces, cap: usize) -> Vec<String> {
     out
 }
 
+/// a (mostly valid) rendered zone file, as text
+pub fn rendered_text(r: &mut Rng) -> String {
+    let ds = gen_directives(r);
+    let v = gen_filevar(r);
+    pieces_text(&render_pieces(&ds, &v))
+}
+
 fn emit_rendered(ds: &[Directive], v: &FileVar, out: &mut Out) -> Pieces {
     let p = render_pieces(ds, v);
     let text = pieces_text(&p);
